@@ -8,7 +8,7 @@ CFG = dict(
           "over all label sequences of the small-step client model coq/Model/Client.v (unbounded calls, any inbound envelopes, "
           "faults, interleavings); the model is run lock-step against the real client on every run. Server half (coq/Model/Server.v, Proofs/ServerInv.v, ServerLive.v, over all label sequences): C14_server_bounded (the registry of a server connection has exactly one entry per live stream-handler goroutine, in every reachable state) and C14_server_idle (Q: quiescent, every handler returned, writes not blocked or connection over => registry empty); the goroutine side is C12_never_stalls / C10_no_leak; the server model is run lock-step against the real server by ./check C10 and C12.",
     props="Props/C14.v",
-    theorems=["C14_bounded", "C14_released", "C14_idle", "C14_cancel_released", "C14_server_bounded", "C14_server_idle"],
+    theorems=["C14_bounded", "C14_released", "C14_idle", "C14_cancel_released", "C14_final_released", "C14_server_bounded", "C14_server_idle", "C14_server_released", "C14_server_release_enabled", "C14_server_released_Q", "C14_server_collections_bounded"],
     imports=["Model.Client", "Check.ClientC", "Check.C14c"],
     case_type="c14case",
     find_bad_from="Check.C14c.find_bad_from",
